@@ -1182,3 +1182,53 @@ def m_warn(eng, args, kwargs, st, node):
     eng.trusted_used.add('stdlib:warnings.warn (no effect on the verified state)')
     eng.log_event(st, 'warnings.warn', {'message': args[0]}, 'normal')
     return [(NONE, st)]
+
+
+# ------------------------------------------------------------------ abstract file system (os.path)
+# Paths are strings; the file system is three uninterpreted predicates; join/dirname/basename are uninterpreted
+# functions (no algebra is assumed beyond: a file or a directory exists).  The same symbols are available to
+# specifications as S.fs_exists / S.fs_isfile / S.fs_isdir / S.path_join / S.path_dirname / S.path_basename.
+import os.path as _osp
+
+
+def _fs_pred(name):
+    def model(eng, args, kwargs, st, node):
+        p = args[0]
+        if not isinstance(p, VStr):
+            raise Undecided('os.path.%s of %r' % (name, p), node)
+        eng.trusted_used.add('abstract file system: os.path.exists/isfile/isdir as uninterpreted predicates (a file or directory exists)')
+        ctx = eng.ctx
+        new = 'fs_exists' not in ctx.funs
+        for nm in ('fs_exists', 'fs_isfile', 'fs_isdir'):
+            ctx.fun(nm, [STR], BOOL)
+        if new:
+            x = smt.bound(ctx, 'x', STR)
+            ctx.fun_axioms['fs_isfile'] = [smt.ForAll([x], Implies(ctx.app('fs_isfile', x), ctx.app('fs_exists', x)),
+                                                      patterns=[[ctx.app('fs_isfile', x)]])]
+            ctx.fun_axioms['fs_isdir'] = [smt.ForAll([x], Implies(ctx.app('fs_isdir', x), ctx.app('fs_exists', x)),
+                                                     patterns=[[ctx.app('fs_isdir', x)]])]
+        return [(VBool(ctx.app('fs_' + name, p.t)), st)]
+    return model
+
+
+def _path_fn(name, arity):
+    def model(eng, args, kwargs, st, node):
+        if not all(isinstance(a, VStr) for a in args):
+            raise Undecided('os.path.%s of %r' % (name, args), node)
+        eng.trusted_used.add('abstract paths: os.path.join/dirname/basename/abspath/expanduser/realpath as uninterpreted functions')
+        if name == 'join':
+            t = args[0].t
+            for a in args[1:]:
+                t = eng.model_app('path_join', [t, a.t], STR)
+            return [(VStr(t), st)]
+        if name == 'split':
+            return [(VTuple([VStr(eng.model_app('path_dirname', [args[0].t], STR)),
+                             VStr(eng.model_app('path_basename', [args[0].t], STR))]), st)]
+        return [(VStr(eng.model_app('path_' + name, [args[0].t], STR)), st)]
+    return model
+
+
+for _n in ('exists', 'isfile', 'isdir'):
+    FUNCS[getattr(_osp, _n)] = _fs_pred(_n)
+for _n in ('join', 'dirname', 'basename', 'abspath', 'expanduser', 'realpath', 'split'):
+    FUNCS[getattr(_osp, _n)] = _path_fn(_n, 1)
